@@ -13,6 +13,15 @@ DEV_NOTE = ("Trusted: TLC, the transcription of the device rules into Devices.tl
             "built per behaviour and every terminal is read after every action); timestamps are ranks mapped monotonically to i64; "
             "numeric agreement within 2^-16 of the largest magnitude in the behaviour.")
 CLAIMS = {
+ "C19": dict(design_ref="DESIGN.md section 4, C19",
+    text="The configuration is a constant of the specifications (DimCheck in Units, Kinematics, TimeInt, Streams) plus the power function. TLC "
+         "generates the behaviours of ten specification modules once per value of DimCheck; harness binaries built as {std, alloc+libm, "
+         "alloc+micromath} x {checking in, out} replay them, each against the specification instance of its configuration (so all configurations "
+         "agree with each other wherever DimCheck does not matter), ill-dimensioned unit-grid cases must not panic or be rejected when checking "
+         "is compiled out, and conversions whose exact result has a fractional nanosecond are compared between the configurations directly.",
+    note="Trusted: TLC, the specifications, the harness. The power function is configuration-supplied: exact under std, 4 ulps under libm "
+         "(exponent stream), not compared under micromath. The harness links std; rrtk is no_std + alloc in the libm / micromath builds.",
+    technique=TECH),
  "C17": dict(design_ref="DESIGN.md section 4, C17",
     text="Reference.tla models handles (clone, to_dyn, write, read, drop) onto one object for the six variants with the invariants 'every handle "
          "reads the last write' and 'dropped iff reference counted and no handle left'; RefThreads.tla explores every interleaving of N threads x "
